@@ -181,7 +181,71 @@ class LPDB:
                   ("maximize_constraints", ("maximize_constraints", "constraints", "objectives")),
                   ("nmonths", ("nmonths", "n_months", "n")), ("resource", ("resource", "resource_entry", "entry", "row")))
 
-    def by_role(self, fn, roles, partial=False):
+    def _from_call_site(self, fn, pname, roles, it, obj):
+        """value of a parameter that has no role of its own: the one call of `fn` in the class says what is handed over for it (`limit[month]`
+        with `limit` looked up before the month loop, ...) - that expression, with the caller's locals propagated, is evaluated with the
+        caller's own parameters and loop variables standing for the values known by role"""
+        from .core import Inliner, bind_args, walk_no_nested
+        sites = []
+        for m in [m for m in self.cls.body if isinstance(m, ast.FunctionDef) and m is not fn]:
+            for st in walk_no_nested(m):
+                if isinstance(st, (ast.Assign, ast.Expr, ast.AugAssign, ast.Return)):
+                    for c in ast.walk(st):
+                        if isinstance(c, ast.Call) and isinstance(c.func, ast.Attribute) and c.func.attr == fn.name \
+                                and isinstance(c.func.value, ast.Name) and c.func.value.id == "self":
+                            sites.append((m, st, c))
+        if len(sites) != 1:
+            raise AnalysisError(f"{fn.name}: parameter {pname!r} has no role the builder's call gives it (known: {sorted(roles)}) and the class "
+                                f"calls {fn.name} {len(sites)} times")
+        m, st, c = sites[0]
+        bound = bind_args(c, fn)
+        if pname not in bound:
+            raise AnalysisError(f"{fn.name}: the call in {m.name} hands nothing over for {pname!r}")
+        e = Inliner(m).at(st).expr(bound[pname])
+        env = {"self": obj}
+        names = {n.id for n in ast.walk(e) if isinstance(n, ast.Name)}
+        for nme in names:
+            low = nme.lower()
+            for r, words in self.ROLE_WORDS:
+                if r in roles and (low == r or low in words):
+                    env[nme] = roles[r]
+                    break
+        missing = sorted(n_ for n_ in names if n_ not in env and n_ not in ("np", "self"))
+        if missing:
+            # locals the caller sets on alternative paths (an if/elif over the round, ...): the top-level statements of the caller that
+            # bind them, before the one that holds the call, are executed with the values known by role
+            top = None
+            for s_ in m.body:
+                if any(x is c for x in ast.walk(s_)):
+                    top = s_
+                    break
+            pre = []
+            for s_ in m.body:
+                if s_ is top:
+                    break
+                if any(isinstance(x, ast.Name) and isinstance(x.ctx, ast.Store) and x.id in missing for x in ast.walk(s_)):
+                    pre.append(s_)
+            if pre:
+                for s_ in pre:
+                    for nme in {n.id for n in ast.walk(s_) if isinstance(n, ast.Name) and isinstance(n.ctx, ast.Load)}:
+                        low = nme.lower()
+                        for r, words in self.ROLE_WORDS:
+                            if nme not in env and r in roles and (low == r or low in words):
+                                env[nme] = roles[r]
+                try:
+                    it.exec_block(pre, env)
+                except Unsupported as ex:
+                    raise AnalysisError(f"{fn.name}: the statements of {m.name} that prepare {missing} are outside the analysed fragment: {ex}")
+                missing = sorted(n_ for n_ in names if n_ not in env and n_ not in ("np", "self"))
+        if missing:
+            raise AnalysisError(f"{fn.name}: what {m.name} hands over for {pname!r} ({ast.unparse(e)[:80]}) reads {missing}, which the builder's "
+                                "call does not know")
+        try:
+            return it.eval(e, env)
+        except Unsupported as ex:
+            raise AnalysisError(f"{fn.name}: what {m.name} hands over for {pname!r} is outside the analysed fragment: {ex}")
+
+    def by_role(self, fn, roles, partial=False, site=None):
         """keyword arguments for `fn` from values known by role: a parameter takes the value whose role its name states (or, for the
         function role, the parameter the body calls); parameters of `fn` with no role here and a default are left to the default.  The
         order, number and spelling of the parameters are the callee's own business"""
@@ -196,6 +260,7 @@ class LPDB:
         as_vars = {n.value.id for n in walk_no_nested(fn) if isinstance(n, ast.Subscript) and isinstance(n.value, ast.Name)
                    and isinstance(n.slice, ast.Constant) and isinstance(n.slice.value, str)}
         out = {}
+        direct = {}
         for i, p_ in enumerate(params):
             low = p_.lower()
             role = None
@@ -219,10 +284,15 @@ class LPDB:
             if role is None:
                 if i >= len(params) - n_default or partial:
                     continue
+                if site is not None:
+                    direct[p_] = self._from_call_site(fn, p_, roles, site[0], site[1])
+                    continue
                 raise AnalysisError(f"{fn.name}: parameter {p_!r} has no role the builder's call gives it "
                                     f"(known: {sorted(roles)})")
             out[p_] = role
-        return {p_: roles[r] for p_, r in out.items()}
+        res = {p_: roles[r] for p_, r in out.items()}
+        res.update(direct)
+        return res
 
     def extract_method(self, name, opt_type, argfn, preset=None, month_param=True):
         fn = self.method(name)
@@ -230,7 +300,7 @@ class LPDB:
         def call(it, obj, model, vd, month):
             got = argfn(it, obj, model, vd, month)
             if isinstance(got, dict):
-                return it.call_function(fn, [], self.by_role(fn, got), obj)
+                return it.call_function(fn, [], self.by_role(fn, got, site=(it, obj)), obj)
             args, kwargs = got
             return it.call_function(fn, args, kwargs, obj)
 
